@@ -186,9 +186,9 @@ pub fn formulas() -> Vec<TagExpr> {
     v
 }
 
-/// (the last one is compiled case-insensitively: by a `RegexBuilder` flag when the options are
+/// (the empty regex matches every name; the one before it is compiled case-insensitively: by a `RegexBuilder` flag when the options are
 /// built programmatically, by an inline flag when they come from the command line)
-pub const REGEXES: [&str; 5] = ["alpha", "^beta$", "a.*a", "zzz", "ALPHA"];
+pub const REGEXES: [&str; 6] = ["alpha", "^beta$", "a.*a", "zzz", "ALPHA", ""];
 
 fn name_regex(r: usize, via_clap: bool) -> Regex {
     if r == 4 && !via_clap {
@@ -237,7 +237,7 @@ pub fn filter_cfgs(nform: usize) -> Vec<FilterCfg> {
         v.push(FilterCfg { re: None, tags: None, closure: Some(c), via_clap: false, exit: false });
     }
     // combinations of sources (precedence): name > tags > closure
-    for r in [0usize, 3] {
+    for r in [0usize, 3, 5] {
         for t in [0usize, 2, 9] {
             v.push(FilterCfg { re: Some(r), tags: Some(t), closure: None, via_clap: false, exit: false });
             for c in [1usize, 2] {
@@ -568,7 +568,7 @@ pub fn run(a: &ShardArgs) -> serde_json::Value {
         "property": "C15", "tier": a.tier,
         "total_configs": fcs.len() * groups.len(), "configs_done": evaluations, "configs_skipped_budget": skipped,
         "evaluations": evaluations, "distinct_nontrivial": nontrivial,
-        "rule": format!("{} filter configurations ({} tag formulas of depth <= 2 (thorough: 3) over {{a,b}} directly and through clap, 4 name regexes, 4 closures, precedence combinations, each through run / filter_run and through run_and_exit / filter_run_and_exit) x {} feature groups; plus 15 builder methods applied after with_cli(filter) x 3 filters (with_default_cli must drop the filter, the others keep it), each in a child process with a clean argv ({} features: tags on feature x rule x scenarios); non-trivial = the filter keeps some but not all scenarios", fcs.len(), forms.len(), groups.len(), feats.len()),
+        "rule": format!("{} filter configurations ({} tag formulas of depth <= 2 (thorough: 3) over {{a,b}} directly and through clap, 6 name regexes (one empty, one case-insensitive), 4 closures, precedence combinations, each through run / filter_run and through run_and_exit / filter_run_and_exit) x {} feature groups; plus 15 builder methods applied after with_cli(filter) x 3 filters (with_default_cli must drop the filter, the others keep it), each in a child process with a clean argv ({} features: tags on feature x rule x scenarios); non-trivial = the filter keeps some but not all scenarios", fcs.len(), forms.len(), groups.len(), feats.len()),
         "exhaustive": skipped == 0,
         "violations": violations, "samples": samples,
     })
